@@ -945,6 +945,14 @@ class Node(object):
         if type(newChild) == str:
             newChild = self.ownerDocument.createTextNode(newChild)
         if newChild.nodeType == Node.DOCUMENT_FRAGMENT_NODE:
+            # Resolve the position once, the way list.insert does, so that
+            # stepping through the fragment's items cannot walk a negative
+            # index across zero
+            n = len(self)
+            if i < 0:
+                i = max(0, i + n)
+            elif i > n:
+                i = n
             for item in newChild:
                 self.insert(i, item, setParent=setParent)
                 i += 1
@@ -969,6 +977,15 @@ class Node(object):
         """
         if type(node) == str:
             node = self.ownerDocument.createTextNode(node)
+        # Item assignment follows list semantics: a negative index counts
+        # from the end, an index outside the list is an error (raised before
+        # anything is changed)
+        if not isinstance(i, slice):
+            n = len(self)
+            if i < 0:
+                i += n
+            if not 0 <= i < n:
+                raise IndexError('assignment index out of range')
         # If a DocumentFragment is being inserted, but it isn't replacing
         # a slice, we need to put each child in manually.
         if node.nodeType == Node.DOCUMENT_FRAGMENT_NODE \
